@@ -328,6 +328,12 @@ func (m *LifeMon) OnEvent(c *eng.Ctx, ms eng.MState, ev *eng.Event) eng.MState {
 			s = m.onFallback(c, s, ev, batch, chk)
 		case "cb:Post":
 			s = m.onPost(c, s, ev, batch, chk)
+		default:
+			// any other user code (an observer hook, a function value of unknown origin) may cancel
+			// the context: what was observed before it is stale
+			if strings.HasPrefix(ev.Class, "field:") || strings.HasPrefix(ev.Class, "dyn:") || strings.HasPrefix(ev.Class, "invoke:") {
+				s.obs, s.fresh = nil, false
+			}
 		}
 	case "return":
 		m.onReturn(c, s, ev, batch)
